@@ -33,9 +33,47 @@ func tryRecvSid(owners []nhOwner) (int, string, bool) {
 	return i, v.String(), true
 }
 
+// nhTimeout is the value given to nathole.NatHoleTimeout (whole seconds is all the variable allows): how long
+// HandleVisitor waits for a receiver on the owner's channel, and then for the owner's NatHoleClient message.
+const nhTimeout = 2
+
+type nhPending struct {
+	sid  string
+	done chan struct{}
+}
+
 func nhCase(g *gen, dist map[string]int) (string, []map[string]string) {
-	nathole.NatHoleTimeout = 0
 	c, _ := nathole.NewController(time.Hour)
+	var ops, obs []string
+	var pend []nhPending
+	// sessions whose HandleVisitor call has returned are reported as ended (in the order they were opened)
+	reap := func(wait bool) {
+		keep := pend[:0]
+		for _, p := range pend {
+			ended := false
+			if wait {
+				select {
+				case <-p.done:
+					ended = true
+				case <-time.After((nhTimeout + 5) * time.Second):
+				}
+			} else {
+				select {
+				case <-p.done:
+					ended = true
+				default:
+				}
+			}
+			if ended {
+				ops = append(ops, fmt.Sprintf("NhSessionEnd %s", hx.HxS(p.sid)))
+				obs = append(obs, obsZ(0))
+			} else {
+				keep = append(keep, p)
+			}
+		}
+		pend = keep
+	}
+	undelivered := 0
 	var owners []nhOwner // every channel ever handed out (closed proxies included: they must stay silent)
 	live := map[string]string{}
 	allows := map[string][]string{}
@@ -43,10 +81,10 @@ func nhCase(g *gen, dist map[string]int) (string, []map[string]string) {
 	for _, s := range skPool {
 		ht.addSk(s)
 	}
-	var ops, obs []string
 	var fails []map[string]string
 	n := 5 + g.Intn(14)
 	for i := 0; i < n; i++ {
+		reap(false)
 		r := g.Intn(100)
 		if i < 2 {
 			r = 0
@@ -87,32 +125,46 @@ func nhCase(g *gen, dist map[string]int) (string, []map[string]string) {
 			sign, kind := g.sign(realSk, ts, 0.65)
 			user := g.userFor(allows[name])
 			pre := g.Chance(0.4)
+			// once per history at most: the owner is not receiving (as after it went away)
+			recv := true
+			if !pre && undelivered == 0 && g.Chance(0.08) {
+				recv = false
+				undelivered++
+				reap(true) // the earlier sessions end while this request waits: settle them first
+			}
 			sendCh := make(chan msg.Message, 8)
 			tr := transport.NewMessageTransporter(sendCh)
 			m := &msg.NatHoleVisitor{TransactionID: "tx", ProxyName: name, PreCheck: pre, Protocol: "quic", SignKey: sign, Timestamp: ts}
 			done := make(chan struct{})
+			before := c.VerifC08SessionCount()
 			go func() { c.HandleVisitor(m, tr, user); close(done) }()
-			// wait until HandleVisitor returned, or it is parked on the owner's channel with a session inserted
-			mid := int64(0)
+			// wait until HandleVisitor returned, or it is parked on the owner's channel with its session inserted
+			mid := int64(before)
 			notifiedIdx, sid, notified := -1, "", false
 			others := int64(0)
-			deadline := time.Now().Add(2 * time.Second)
+			deadline := time.Now().Add((nhTimeout + 5) * time.Second)
+			returned := false
 		wait:
 			for time.Now().Before(deadline) {
 				select {
 				case <-done:
+					returned = true
 					break wait
 				case <-time.After(100 * time.Microsecond):
 				}
-				if cnt := c.VerifC08SessionCount(); cnt > 0 {
+				if !recv {
+					continue
+				}
+				if cnt := c.VerifC08SessionCount(); cnt > before {
 					if i, s, ok := tryRecvSid(owners); ok {
 						mid = int64(cnt)
 						notifiedIdx, sid, notified = i, s, true
-						<-done
+						pend = append(pend, nhPending{s, done})
 						break wait
 					}
 				}
 			}
+			_ = returned
 			// anything else delivered to any owner?
 			for {
 				i, s, ok := tryRecvSid(owners)
@@ -156,16 +208,16 @@ func nhCase(g *gen, dist map[string]int) (string, []map[string]string) {
 					others++
 				}
 			}
-			ops = append(ops, fmt.Sprintf("NhVisitor %s %s %s %s %s", hx.HxS(name), hx.Z(ts), hx.HxS(sign), hx.Bool(pre), hx.HxS(user)))
+			ops = append(ops, fmt.Sprintf("NhVisitor %s %s %s %s %s %s", hx.HxS(name), hx.Z(ts), hx.HxS(sign), hx.Bool(pre), hx.HxS(user), hx.Bool(recv)))
 			obs = append(obs, obsNh(resp, notified, ownerName, sid, others, mid, fin))
-			dist[fmt.Sprintf("nh-visitor:pre=%v:resp=%d:notified=%v", pre, resp, notified)]++
+			dist[fmt.Sprintf("nh-visitor:pre=%v:recv=%v:resp=%d:notified=%v", pre, recv, resp, notified)]++
 			dist["sign:"+kind]++
 			if notified && isLive && !(contains(allows[name], user) || contains(allows[name], "*")) {
 				fails = append(fails, map[string]string{"key": "nathole:owner-notified-for-user-outside-allowUsers",
 					"what": "nathole.Controller.HandleVisitor opened a session and delivered a sid to the proxy owner for a correctly signed request of a user outside allowUsers",
 					"case": fmt.Sprintf("%s allowUsers=%q", ops[len(ops)-1], allows[name])})
 			}
-			if fin != 0 || (!notified && mid != 0) {
+			if !notified && (fin != int64(before) || mid != int64(before)) {
 				fails = append(fails, map[string]string{"key": "nathole:session-state-left-behind",
 					"what": "a refused or pre-check NAT-hole request left a session in nathole.Controller.sessions",
 					"case": ops[len(ops)-1]})
@@ -177,5 +229,8 @@ func nhCase(g *gen, dist map[string]int) (string, []map[string]string) {
 			}
 		}
 	}
+	reap(true)
+	ops = append(ops, "NhCount")
+	obs = append(obs, obsZ(int64(c.VerifC08SessionCount())))
 	return fmt.Sprintf("CNh %s %s %s", ht.coq(), hx.List(ops), hx.List(obs)), fails
 }
